@@ -53,6 +53,20 @@ func runC13(r *Run) {
 	r.rule("C13.R5", "nonce lifecycle: zero record only when absent; removed for sealed rounds, at finalisation, added for new rounds; writer set of the nonce family", 8)
 	r.rule("C13.R6", "counted-only-if guards dominate aggregation: membership, open round, base block, rule, decimals, duplicate filters; rule check rejects any missing source", 14)
 	r.rule("C13.R7", "timestamp window: unrounded block time + 5 s, strict 'later than' rejection, every price, empty/unparseable rejected, before any aggregation", 6)
+	if r.Prop == "C13" {
+		sub := NewRun(r.W, "C12", r.Tier, r.Seed)
+		runC12(sub)
+		for _, o := range sub.Obs {
+			if o.Key != "SealRound|failed-round-is-sealed" {
+				continue
+			}
+			if o.Status == "ok" {
+				r.ok("C13.R5", o.Key, o.Pos, o.Desc)
+			} else {
+				r.bad("C13.R5", o.Key, o.Pos, o.Desc, o.Detail)
+			}
+		}
+	}
 
 	// ------------------------------------------------------------------ R1
 	if v := w.View("app/ante/utils", "IsOracleCreatePriceTx"); v == nil {
